@@ -1,4 +1,6 @@
 import BertE.Lemmas.Full
+import BertE.Lemmas.Full2Anomaly
+import BertE.Lemmas.Full2C03
 import BertE.Props.C03
 import BertE.Props.C06
 import BertE.Drv.C09
@@ -9,23 +11,30 @@ The closed system (`Model/Full.lean`): C01 and C03 over ONE transition system wh
 from outside (webhook-level events, admin-job requests, third-party actions on the repository and on the host) and
 whose only oracle are the answers of git's content merges.
 
-No admissibility hypothesis is left: what `C01_step` asks of an event (`Flow.Adm`) is DISCHARGED here from the
-decision the model computes —
-  * queue selections are closed downwards: `Select.downClosed_selectOf` behind the validation guard;
+No admissibility hypothesis is left: what `C01_step` asks of an event (`Flow.Adm`, and `Close.AdmC` for the
+strengthened invariant) is DISCHARGED here from the decision the model computes —
+  * queue selections are closed downwards: `Select.downClosed_selectOf`; `Select.Validated` is a consequence of the
+    invariant (`FullInv.validated`), the guard of a queue evaluation is the modelled `validate()` ALONE;
+  * pull-request ids are positive (`FullInv.hostPos`; the host numbers from 1);
   * a pull request held as queued is found already queued: the link between the queue bookkeeping and the host's
     pull requests (`FullInv.link`) with the queue invariant;
   * `create_branch`: `Admin.createBranch` publishes only after `cascadeCheck` accepted the clone that holds the new
     branch — literally `InclOn` (`cascadeCheck_spec`), the branch did not exist, the branching point exists;
-  * `delete_branch`: refused while `has_version_queued_prs`, so no queued pull request targets the branch;
+    a stabilization branch is created beside its development branch (`cascadeCheck_spec`'s `CascadeOK.hasDev`);
+    a job that published the branch ends with JobSuccess (`createBranch_success_of_inv`: the nested queue rebuild
+    cannot die in a world satisfying the invariant);
+  * `delete_branch`: refused while `has_version_queued_prs`, so no queued pull request targets the branch; a
+    development branch is refused while a stabilization branch of it is alive;
   * third-party pushes are built from existing commits and go to branches that are not the robot's.
 -/
 namespace BertE.Full
 open BertE.Git BertE.Flow
 
-/-- every event that is not an anomalous exit of an admin job keeps the invariant -/
+/-- every event that is not the anomalous exit of `delete_branch` (D19) keeps the invariant -/
 theorem full_step_inv {w : World} (h : FullInv w) (ev : FullEvent) (orc : List Bool) (hna : ¬ AdminAnomaly w ev) :
     FullInv (step w ev orc).1 := by
   have hbuilds : ∀ b i, HostExt w.host ⟨w.host.prs, b, i⟩ := fun _ _ _ p hp => ⟨p, hp, rfl, rfl⟩
+  have hbpos : ∀ b i, HostPos ⟨w.host.prs, b, i⟩ := fun _ _ => h.hostPos
   cases ev with
   | prEvent id => exact prJob_inv h id orc
   | commitEvent c =>
@@ -35,7 +44,7 @@ theorem full_step_inv {w : World} (h : FullInv w) (ev : FullEvent) (orc : List B
     · exact queuesJob_inv h false
     · exact evalOne_inv h _ orc
     · exact h
-  | createBranch name from_ => exact createJob_inv h name from_ orc hna
+  | createBranch name from_ => exact createJob_inv h name from_ orc
   | deleteBranch name => exact deleteJob_inv h name hna
   | rebuildQueues => exact dropJob_inv h true orc
   | deleteQueues => exact dropJob_inv h false orc
@@ -46,60 +55,80 @@ theorem full_step_inv {w : World} (h : FullInv w) (ev : FullEvent) (orc : List B
     · exact queuesJob_inv h true
     · exact h
   | push name parents onTop =>
-    refine external_inv h _ _ ?_ rfl
+    refine external_inv h _ _ ?_ trivial rfl
     intro hok p hp
     simp only [Bool.and_eq_true, List.all_eq_true, decide_eq_true_eq] at hok
     exact hok.2 p hp
   | pushTo name c =>
-    refine external_inv h _ _ ?_ rfl
+    refine external_inv h _ _ ?_ trivial rfl
     intro hok
     simp only [Bool.and_eq_true, decide_eq_true_eq] at hok
     exact hok.2
-  | deleteRef name => exact external_inv h _ _ (fun _ => trivial) rfl
+  | deleteRef name => exact external_inv h _ _ (fun _ => trivial) trivial rfl
   | wCommit d src =>
-    refine external_inv h _ _ (fun _ => trivial) ?_
+    refine external_inv h _ _ (fun _ => trivial) trivial ?_
     simp only [Flow.step]
     split <;> rfl
-  | openPr author src dst facts => exact (h.host (HostExt.of_append _ _ _ _)).refresh
+  | openPr author src dst facts =>
+    refine (h.host (HostExt.of_append _ _ _ _) (HostPos.of_append h.hostPos _ ?_ _ _)).refresh
+    intro p hp
+    simp only [List.mem_singleton] at hp
+    subst hp
+    exact nextId_ne_zero _
   | comment id author text =>
     show FullInv (refresh { w with host := mapPr w.host id _ })
-    refine (h.host (hostExt_mapPr _ _ _ ?_)).refresh
-    intro p
-    exact ⟨rfl, rfl, rfl⟩
+    refine (h.host (hostExt_mapPr _ _ _ ?_) (hostPos_mapPr h.hostPos _ _ ?_)).refresh
+    · intro p; exact ⟨rfl, rfl, rfl⟩
+    · intro p; rfl
   | approve id user =>
     show FullInv (refresh { w with host := mapPr w.host id _ })
-    refine (h.host (hostExt_mapPr _ _ _ ?_)).refresh
-    intro p
-    exact ⟨rfl, rfl, rfl⟩
+    refine (h.host (hostExt_mapPr _ _ _ ?_) (hostPos_mapPr h.hostPos _ _ ?_)).refresh
+    · intro p; exact ⟨rfl, rfl, rfl⟩
+    · intro p; rfl
   | requestChanges id user =>
     show FullInv (refresh { w with host := mapPr w.host id _ })
-    refine (h.host (hostExt_mapPr _ _ _ ?_)).refresh
-    intro p
-    exact ⟨rfl, rfl, rfl⟩
-  | buildStatus c st => exact (h.host (hbuilds _ _)).refresh
+    refine (h.host (hostExt_mapPr _ _ _ ?_) (hostPos_mapPr h.hostPos _ _ ?_)).refresh
+    · intro p; exact ⟨rfl, rfl, rfl⟩
+    · intro p; rfl
+  | buildStatus c st => exact (h.host (hbuilds _ _) (hbpos _ _)).refresh
   | decline id =>
     show FullInv (refresh { w with host := mapPr w.host id _ })
-    refine (h.host (hostExt_mapPr _ _ _ ?_)).refresh
-    intro p
-    exact ⟨rfl, rfl, rfl⟩
-  | setIssue key issue => exact (h.host (hbuilds _ _)).refresh
+    refine (h.host (hostExt_mapPr _ _ _ ?_) (hostPos_mapPr h.hostPos _ _ ?_)).refresh
+    · intro p; exact ⟨rfl, rfl, rfl⟩
+    · intro p; rfl
+  | setIssue key issue => exact (h.host (hbuilds _ _) (hbpos _ _)).refresh
 
 /-- **C01 over the closed system, one event.** For every world that satisfies the invariant, EVERY event — a
     pull-request or commit webhook, an admin job with any request parameters, any third-party action on the
     repository or on the host — and EVERY list of content-merge answers: forward-port inclusion holds after the
-    event and the invariant is kept. No hypothesis on the event beyond `¬ AdminAnomaly`: the two exits of admin jobs
-    after which the queue bookkeeping no longer describes the `q/` refs — `create_branch` that dies in its nested
-    queue rebuild after the publication (needs a `q/` head without destination branch; not reachable through the
-    robot's jobs, not proved unreachable), and a successful `delete_branch hotfix/x.y.z` while `q/x.y.z`, the queue
-    of stabilization/x.y.z, exists (known finding `delete-hotfix-branch-deletes-the-stabilization-queue`, observed on
-    the real system by every C20 check). Neither moves a destination to a commit that breaks inclusion; what they
-    break is the queue invariant the next evaluations rely on (there the code relies on `validate()`,
-    `C01_queue_validated`). -/
+    event and the invariant is kept. The guard of the queue evaluations is the modelled `validate()` alone. The only
+    hypothesis on the event is `¬ AdminAnomaly`: the ONE exit of an admin job after which the queue bookkeeping no
+    longer describes the `q/` refs — a successful `delete_branch hotfix/x.y.z` while `q/x.y.z`, the queue of
+    stabilization/x.y.z, exists (known finding D19 `delete-hotfix-branch-deletes-the-stabilization-queue`, observed
+    on the real system by every C20 check). What holds after that exit: `C01_full_step_anomaly`. (The former second
+    exit — `create_branch` dying in its nested queue rebuild after the publication — is proved unreachable:
+    `createBranch_success_of_inv`.) -/
 theorem C01_full_step (w : World) (h : FullInv w) (ev : FullEvent) (orc : List Bool) (hna : ¬ AdminAnomaly w ev) :
     (step w ev orc).1.sys.Incl ∧ FullInv (step w ev orc).1 :=
   ⟨(full_step_inv h ev orc hna).inv.incl, full_step_inv h ev orc hna⟩
 
-/-- no event of the history is an anomalous exit of an admin job, in the world it is applied to -/
+/-- **C01 after the excluded exit (D19).** In a world that satisfies the invariant, after a successful
+    `delete_branch hotfix/x.y.z` while `q/x.y.z` exists: forward-port inclusion STILL holds, and so does every conjunct
+    of `FullInv` except the queue invariant `Inv.q` / `QSync` (`Full2.AfterAnomaly`: well-formedness, inclusion,
+    Close's `VX`, commit numbering, distinct ref keys, host link, positive ids, cascade settings). The queue
+    bookkeeping is unchanged and `q/x.y.z` is gone, so `QInv` (clause `qhas`) is LOST exactly when a pull request is
+    queued on stabilization/x.y.z. -/
+theorem C01_full_step_anomaly (w : World) (h : FullInv w) (name : Ref) (orc : List Bool)
+    (ha : AdminAnomaly w (.deleteBranch name)) :
+    (step w (.deleteBranch name) orc).1.sys.Incl ∧ BertE.Full2.AfterAnomaly (step w (.deleteBranch name) orc).1 ∧
+    ∃ M m u, name = .dest (.hotfix M m u) ∧
+      (step w (.deleteBranch name) orc).1.sys.remote.get (.q (.stab M m u)) = none ∧
+      (step w (.deleteBranch name) orc).1.sys.queue = w.sys.queue ∧
+      ((∃ e ∈ w.sys.queue, Dest.stab M m u ∈ e.targets) → ¬ QInv (step w (.deleteBranch name) orc).1.sys) :=
+  ⟨(BertE.Full2.full2_deleteJob_anomaly h name ha).1.incl, (BertE.Full2.full2_deleteJob_anomaly h name ha).1,
+    (BertE.Full2.full2_deleteJob_anomaly h name ha).2⟩
+
+/-- no event of the history is the anomalous exit of `delete_branch` (D19), in the world it is applied to -/
 def NoAnomaly (w : World) : List (FullEvent × List Bool) → Prop
   | [] => True
   | e :: es => ¬ AdminAnomaly w e.1 ∧ NoAnomaly (step w e.1 e.2).1 es
@@ -127,9 +156,10 @@ end BertE.Full
 
 /-! ### C03 over the closed system -/
 namespace BertE.Full
-open BertE.Git BertE.Flow
+open BertE.Git BertE.Flow BertE.Full2
 
-/-- **C03 over the closed system, queue evaluations (partial: see below).** With queues on, for every world that
+/-- **C03 over the closed system, queue evaluations** (kept from the first delivery; subsumed by `C03_full_step`
+    below, which covers every event). With queues on, for every world that
     satisfies the invariant and every commit webhook that `handle_commit` resolves to a queue evaluation (a build
     report on a `q/` tip): every destination branch that moved in the event is on a commit whose status in the host's
     build map at the time of the event is SUCCESSFUL. No hypothesis on the selection, none on the statuses: the
@@ -147,11 +177,7 @@ theorem C03_full_step_partial (w : World) (h : FullInv w) (c : Commit) (orc : Li
   unfold queuesJob at hnew
   split at hnew
   · exact absurd hnew hmoved
-  · rename_i hok
-    simp only [Bool.not_eq_true, Bool.not_eq_false'] at hok
-    unfold queuesOK at hok
-    simp only [Bool.and_eq_true, decide_eq_true_eq] at hok
-    exact BertE.C03.C03_step_closed w.sys h.inv hok.2 w.host.status d new hnew hmoved
+  · exact BertE.C03.C03_step_closed w.sys h.inv h.validated w.host.status d new hnew hmoved
 
 /-- ... and along every history without admin anomaly: at every queue evaluation of the history -/
 theorem C03_full_run_partial (w : World) (h : FullInv w) (evs : List (FullEvent × List Bool)) (hna : NoAnomaly w evs)
@@ -161,6 +187,532 @@ theorem C03_full_run_partial (w : World) (h : FullInv w) (evs : List (FullEvent 
     (hmoved : (run w (evs.take k)).sys.remote.get (.dest d) ≠ some new) :
     (run w (evs.take k)).host.status new = .successful :=
   C03_full_step_partial _ (full_run_inv _ h (noAnomaly_take evs w hna k)) c orc hq d new hnew hmoved
+
+/-! ### C03 over EVERY event of the closed system (work package Full2) -/
+
+/-- the build check of the evaluation of pull request `id` is bypassed: the option `bypass_build_status` (comment of
+    a privileged user / command line), the per-author setting, or no build key is configured — the exception the
+    property text makes -/
+def EvalBypassed (w : World) (id : Nat) : Prop :=
+  ∃ p st, w.host.pr id = some p ∧
+    BertE.Reactor.handleComments w.cfg.eval.reg (BertE.Eval.envFor w.cfg.eval p) (BertE.Eval.seenComments w.cfg.eval p) = .ok st ∧
+    BertE.C06.e2eBypassed w.cfg.eval p st
+
+theorem planDeclined_dest (s : Sys) (pr : PrInfo) (cd : Bool) (d : Dest) :
+    (Flow.step s (.evalDeclined pr cd)).1.remote.get (.dest d) = s.remote.get (.dest d) := by
+  show (applyOps (planDeclined s pr cd).g noRej s.remote (planDeclined s pr cd).ops).get _ = _
+  unfold planDeclined
+  simp only
+  split
+  · rfl
+  · apply dropW_other
+    · intro r hr
+      obtain ⟨d', _, hd'⟩ := List.mem_map.mp (List.mem_filter.mp hr).1
+      exact ⟨d', pr.src, hd'.symm⟩
+    · intro _ _ he; cases he
+
+/-- **C03 for ONE pull-request evaluation of the closed system** (queues on): a destination branch that is
+    somewhere else after the evaluation is on a commit whose status in the host's build table is SUCCESSFUL, unless
+    the build check of this pull request is bypassed. Covers both ways an evaluation moves destinations: the pull
+    request is found already queued (the queue merge on the selection computed from the host's table behind
+    `validate()`), and the direct merge when the queue is not needed (`full2_directMerge_moves`: exactly the tips the
+    build gate read). -/
+theorem evalOne_c03 {w : World} (h : FullInv w) {msgs : List BertE.Gen.Messages.Msg}
+    (hT : BertE.C06.TblOK w.cfg.eval.build msgs) (huq : w.sys.useQueue = true) (id : Nat) (orc : List Bool)
+    (d : Dest) (new : Commit) (hnew : (evalOne w id orc).1.sys.remote.get (.dest d) = some new)
+    (hmoved : w.sys.remote.get (.dest d) ≠ some new) :
+    w.host.status new = .successful ∨ EvalBypassed w id := by
+  -- the repository after the evaluation is the repository after the event of the workflow model
+  have hnew' : (Flow.step w.sys (if ((BertE.Eval.evalPr w.cfg.eval w.host w.sys id orc (selOf w false)).stage == .final &&
+        !(BertE.Eval.evalPr w.cfg.eval w.host w.sys id orc (selOf w false)).declined &&
+        !alreadyQueued w.sys (BertE.Eval.evalPr w.cfg.eval w.host w.sys id orc (selOf w false)).pr &&
+        outOfOrder w.sys (BertE.Eval.evalPr w.cfg.eval w.host w.sys id orc (selOf w false)).pr orc)
+      then .evalPr (BertE.Eval.evalPr w.cfg.eval w.host w.sys id orc (selOf w false)).pr .integration orc (selOf w false)
+      else (BertE.Eval.evalPr w.cfg.eval w.host w.sys id orc (selOf w false)).event orc (selOf w false))).1.remote.get
+      (.dest d) = some new := hnew
+  clear hnew
+  generalize hooo : ((BertE.Eval.evalPr w.cfg.eval w.host w.sys id orc (selOf w false)).stage == .final &&
+        !(BertE.Eval.evalPr w.cfg.eval w.host w.sys id orc (selOf w false)).declined &&
+        !alreadyQueued w.sys (BertE.Eval.evalPr w.cfg.eval w.host w.sys id orc (selOf w false)).pr &&
+        outOfOrder w.sys (BertE.Eval.evalPr w.cfg.eval w.host w.sys id orc (selOf w false)).pr orc) = ooo at hnew'
+  rcases BertE.Eval.evalPr_cases w.cfg.eval w.host w.sys id orc (selOf w false) with
+    ⟨hnd, hst, _⟩ | ⟨p, st, src, dst, _, _, hdec, _, _⟩ | ⟨p, st, src, dst, hat, _, heq⟩
+  · -- stopped before the clone: nothing happens
+    have ho : ooo = false := by rw [← hooo, hst]; rfl
+    subst ho
+    simp only [Bool.false_eq_true, if_false, BertE.Eval.Result.event, hnd, hst, step_early] at hnew'
+    exact absurd hnew' hmoved
+  · -- a declined pull request: integration branches are removed
+    have ho : ooo = false := by rw [← hooo, hdec]; simp
+    subst ho
+    simp only [Bool.false_eq_true, if_false, BertE.Eval.Result.event, hdec, if_true] at hnew'
+    rw [planDeclined_dest] at hnew'
+    exact absurd hnew' hmoved
+  · -- the post-clone part
+    have hpr := (BertE.Eval.afterClone_pr w.cfg.eval w.host w.sys p ⟨p.id, p.src, dst, BertE.Eval.opt st "no_octopus"⟩ src st
+      (BertE.Eval.greetingOf w.cfg.eval w.host w.sys p) orc (selOf w false))
+    have hdecl : (BertE.Eval.evalPr w.cfg.eval w.host w.sys id orc (selOf w false)).declined = false := by
+      rw [heq]; exact hpr.2
+    have hprq : (BertE.Eval.evalPr w.cfg.eval w.host w.sys id orc (selOf w false)).pr =
+        ⟨p.id, p.src, dst, BertE.Eval.opt st "no_octopus"⟩ := by rw [heq]; exact hpr.1
+    have hev : ∃ stg, (ooo = true → stg = .integration) ∧
+        (ooo = false → stg = (BertE.Eval.evalPr w.cfg.eval w.host w.sys id orc (selOf w false)).stage) ∧
+        (if ooo then Event.evalPr (BertE.Eval.evalPr w.cfg.eval w.host w.sys id orc (selOf w false)).pr
+          .integration orc (selOf w false)
+        else (BertE.Eval.evalPr w.cfg.eval w.host w.sys id orc (selOf w false)).event orc (selOf w false)) =
+        .evalPr ⟨p.id, p.src, dst, BertE.Eval.opt st "no_octopus"⟩ stg orc (selOf w false) := by
+      cases ooo with
+      | true => exact ⟨.integration, fun _ => rfl, (fun hh => by cases hh), by simp only [if_true, hprq]⟩
+      | false =>
+        refine ⟨_, (fun hh => by cases hh), fun _ => rfl, ?_⟩
+        simp only [Bool.false_eq_true, if_false, BertE.Eval.Result.event, hdecl, hprq]
+    obtain ⟨stg, hs1, hs2, hev⟩ := hev
+    rw [hev] at hnew'
+    have hnew2 : (applyOps (planPr w.sys ⟨p.id, p.src, dst, BertE.Eval.opt st "no_octopus"⟩ stg orc (selOf w false)).g noRej
+        w.sys.remote (planPr w.sys ⟨p.id, p.src, dst, BertE.Eval.opt st "no_octopus"⟩ stg orc (selOf w false)).ops).get
+        (.dest d) = some new := hnew'
+    rcases full2_planPr_dest w.sys _ stg orc (selOf w false) d (by rw [hnew2]; exact fun he => hmoved he.symm) with
+      ⟨_, hplan⟩ | ⟨hfin, hnq, _⟩
+    · -- already queued: the queue merge on the computed selection
+      left
+      rw [hplan] at hnew2
+      unfold selOf at hnew2
+      split at hnew2
+      · exact BertE.C03.C03_step_closed w.sys h.inv h.validated w.host.status d new hnew2 hmoved
+      · have : (planQueues w.sys []).ops = [] := by
+          unfold planQueues; simp
+        rw [this] at hnew2
+        exact absurd hnew2 hmoved
+    · -- every gate passed and the queue is skipped: the direct merge
+      subst hfin
+      have ho : ooo = false := by
+        cases ho : ooo with
+        | false => rfl
+        | true => have := hs1 ho; cases this
+      have hstage : (BertE.Eval.evalPr w.cfg.eval w.host w.sys id orc (selOf w false)).stage = .final := (hs2 ho).symm
+      obtain ⟨p', st', src', pr', sc, dc, l4, pushW, he⟩ := BertE.Eval.evalPr_entered hdecl hstage (by rw [hprq]; exact hnq)
+      have hpr' : pr' = ⟨p.id, p.src, dst, BertE.Eval.opt st "no_octopus"⟩ := by rw [← he.name.1, hprq]
+      subst hpr'
+      have hplanEq : planPr w.sys ⟨p.id, p.src, dst, BertE.Eval.opt st "no_octopus"⟩ .final orc (selOf w false) =
+          (BertE.Eval.evalPr w.cfg.eval w.host w.sys id orc (selOf w false)).plan := by
+        rw [BertE.Eval.evalPr_planPr _ _ _ _ _ _ hdecl, hprq, hstage]
+      rw [hplanEq, he.plan] at hnew2
+      have hpw : ∀ op ∈ pushW, full2_NoDest op := fun op hop =>
+        full2_onlyW_nodest ((BertE.Eval.evalG_prepare_onlyW w.sys _ sc dc orc).2 l4 pushW he.updated op hop)
+      cases hneed : isNeeded w.sys l4 ⟨p.id, p.src, dst, BertE.Eval.opt st "no_octopus"⟩ (w.sys.targets dst) with
+      | true =>
+        rw [hneed] at hnew2
+        simp only [if_true] at hnew2
+        rw [full2_applyOps_nodest _ _ _ (full2_enqueue_nodest w.sys l4 _ _ pushW hpw) d] at hnew2
+        exact absurd hnew2 hmoved
+      | false =>
+        rw [hneed] at hnew2
+        simp only [Bool.false_eq_true, if_false] at hnew2
+        obtain ⟨hd, hw⟩ := full2_directMerge_moves h.inv.wf h.sys.mono _ he.past.srcTip he.past.dstTip he.updated huq hneed
+          d new hnew2 hmoved
+        rcases BertE.C06.e2e_build_pass hT he.build with hb | hg
+        · exact Or.inr ⟨p', st', he.found, he.options, hb⟩
+        · obtain ⟨cm, hcm, hst⟩ := hg d hd
+          rw [hw] at hcm
+          cases hcm
+          exact Or.inl hst
+
+/-! #### frames: what a pull-request job leaves alone -/
+
+theorem step_useQueue (s : Sys) (ev : Event) : (Flow.step s ev).1.useQueue = s.useQueue := by
+  cases ev with
+  | createBranch d c => cases d <;> rfl
+  | deleteBranch d => cases d <;> rfl
+  | extW d src => simp only [Flow.step]; split <;> rfl
+  | _ => rfl
+
+theorem postMerged_builds (w : World) : ∀ (ids : List Nat) (h : BertE.Eval.Host), (postMerged w h ids).builds = h.builds
+  | [], _ => rfl
+  | id :: ids, h => by
+    unfold postMerged
+    simp only [List.foldl_cons]
+    exact postMerged_builds w ids _
+
+theorem postFailed_builds (w : World) : ∀ (ids : List Nat) (h : BertE.Eval.Host), (postFailed w h ids).builds = h.builds
+  | [], _ => rfl
+  | id :: ids, h => by
+    unfold postFailed
+    simp only [List.foldl_cons]
+    exact postFailed_builds w ids _
+
+theorem newChildren_builds (w : World) (pr : PrInfo) : ∀ (ds : List Dest) (acc : BertE.Eval.Host × List (Nat × Nat)),
+    (ds.foldl (childStep w pr) acc).1.builds = acc.1.builds
+  | [], _ => rfl
+  | d :: ds, acc => by
+    simp only [List.foldl_cons]
+    rw [newChildren_builds w pr ds]
+    unfold childStep
+    split <;> rfl
+
+/-- one evaluation keeps the settings, the build table of the host and the queue switch -/
+theorem evalOne_frame (w : World) (id : Nat) (orc : List Bool) :
+    (evalOne w id orc).1.cfg = w.cfg ∧ (evalOne w id orc).1.host.builds = w.host.builds ∧
+    (evalOne w id orc).1.sys.useQueue = w.sys.useQueue := by
+  refine ⟨rfl, ?_, ?_⟩
+  · unfold evalOne
+    simp only
+    show (if _ then declineChildren _ _ _ else _).builds = _
+    have h1 : ∀ notes ids fl, (postFailed w (postMerged w (postAll w w.host
+        (BertE.Eval.evalPr w.cfg.eval w.host w.sys id orc (selOf w false)).pr.id notes) ids) fl).builds = w.host.builds :=
+      fun notes ids fl => by rw [postFailed_builds, postMerged_builds]; rfl
+    have h2 : ∀ (b : Bool) (x : BertE.Eval.Host) (pr : PrInfo) (ds : List Dest),
+        (if b then newChildren w x pr ds else (x, [])).1.builds = x.builds := by
+      intro b x pr ds
+      cases b
+      · rfl
+      · exact newChildren_builds w pr ds (x, [])
+    split
+    · show (declineChildren _ _ _).builds = _
+      unfold declineChildren
+      simp only
+      rw [h2, h1]
+    · rw [h2, h1]
+  · exact step_useQueue _ _
+
+theorem prJob_frame (w : World) (id : Nat) (orc : List Bool) :
+    (prJob w id orc).1.cfg = w.cfg ∧ (prJob w id orc).1.host.builds = w.host.builds ∧
+    (prJob w id orc).1.sys.useQueue = w.sys.useQueue := by
+  unfold prJob
+  split
+  · exact evalOne_frame w _ orc
+  · exact ⟨rfl, rfl, rfl⟩
+
+theorem status_of_builds {h h' : BertE.Eval.Host} (hb : h'.builds = h.builds) (c : Commit) : h'.status c = h.status c := by
+  unfold BertE.Eval.Host.status; rw [hb]
+
+/-- the pull request a job is about, when it is one: is its build check bypassed? -/
+def TargetBypassed (w : World) : BertE.Prs.Target → Prop
+  | .pr p => EvalBypassed w p
+  | _ => False
+
+theorem prJob_c03 {w : World} (h : FullInv w) {msgs : List BertE.Gen.Messages.Msg}
+    (hT : BertE.C06.TblOK w.cfg.eval.build msgs) (huq : w.sys.useQueue = true) (id : Nat) (orc : List Bool)
+    (d : Dest) (new : Commit) (hnew : (prJob w id orc).1.sys.remote.get (.dest d) = some new)
+    (hmoved : w.sys.remote.get (.dest d) ≠ some new) :
+    w.host.status new = .successful ∨ TargetBypassed w (resolvePr w id) := by
+  unfold prJob at hnew
+  split at hnew
+  · rename_i p hp
+    rw [hp]
+    exact evalOne_c03 h hT huq p orc d new hnew hmoved
+  · exact absurd hnew hmoved
+
+/-- one of the evaluations a queue rebuild re-submits has its build check bypassed -/
+def ResubBypassed (orc : List Bool) : List Nat → Nat → World → Prop
+  | [], _, _ => False
+  | id :: ids, k, w => TargetBypassed w (resolvePr w id) ∨
+      ResubBypassed orc ids (k + 1) (prJob w id (orc.drop (16 * k))).1
+
+theorem resubmit_c03 {msgs : List BertE.Gen.Messages.Msg} (orc : List Bool) : ∀ (ids : List Nat) (k : Nat) {w : World},
+    FullInv w → BertE.C06.TblOK w.cfg.eval.build msgs → w.sys.useQueue = true → ∀ (d : Dest) (new : Commit),
+    (resubmit orc ids k w).1.sys.remote.get (.dest d) = some new → w.sys.remote.get (.dest d) ≠ some new →
+    w.host.status new = .successful ∨ ResubBypassed orc ids k w
+  | [], _, _, _, _, _, d, new, hnew, hmoved => absurd hnew hmoved
+  | id :: ids, k, w, h, hT, huq, d, new, hnew, hmoved => by
+    unfold resubmit at hnew
+    simp only at hnew
+    obtain ⟨hcfg, hb, hu⟩ := prJob_frame w id (orc.drop (16 * k))
+    by_cases h1 : (prJob w id (orc.drop (16 * k))).1.sys.remote.get (.dest d) = some new
+    · rcases prJob_c03 h hT huq id _ d new h1 hmoved with hs | hs
+      · exact Or.inl hs
+      · exact Or.inr (Or.inl hs)
+    · rcases resubmit_c03 orc ids (k + 1) (prJob_inv h id _) (by rw [hcfg]; exact hT) (by rw [hu]; exact huq) d new hnew h1
+        with hs | hs
+      · left; rw [← status_of_builds hb]; exact hs
+      · exact Or.inr (Or.inr hs)
+
+/-! #### the jobs that do not merge: destination branches stay where they are (or go) -/
+
+theorem dropQueues_dest (s : Sys) (d : Dest) :
+    (Flow.step s .dropQueues).1.remote.get (.dest d) = s.remote.get (.dest d) := by
+  show (applyOps (planDropQueues s).g noRej s.remote (planDropQueues s).ops).get _ = _
+  unfold planDropQueues
+  simp only
+  split
+  · rfl
+  · simp only [applyOps, List.foldl_cons, List.foldl_nil]
+    rcases pushAll_apply s.g s.remote (delRefs s.remote (allQRefs s.remote)) with h | h
+    · rw [h]; exact drop_other _ _ ⟨(fun _ he => by cases he), (fun _ _ _ he => by cases he)⟩
+    · rw [h]
+
+theorem deleteBranch_dest (s : Sys) (d0 d : Dest) (new : Commit)
+    (h : (Flow.step s (.deleteBranch d0)).1.remote.get (.dest d) = some new) : s.remote.get (.dest d) = some new := by
+  have h' : (applyOps s.g noRej s.remote ((if s.remote.has (.q d0) then [Op.delete (.q d0)] else []) ++
+      [Op.delete (.dest d0)])).get (.dest d) = some new := by
+    cases d0 <;> exact h
+  rw [deleteBranch_remote] at h'
+  split at h'
+  · cases h'
+  · exact h'
+
+theorem delRefs_dest_some (m : RefMap) (cl : List Ref) (d : Dest) (new : Commit)
+    (h : (delRefs m cl).get (.dest d) = some new) : m.get (.dest d) = some new := by
+  rw [get_delRefs] at h
+  split at h
+  · cases h
+  · exact h
+
+theorem deleteJob_dest (w : World) (name : Ref) (d : Dest) (new : Commit)
+    (h : (deleteJob w name).1.sys.remote.get (.dest d) = some new) : w.sys.remote.get (.dest d) = some new := by
+  unfold deleteJob at h
+  simp only at h
+  have h' := delRefs_dest_some _ _ d new h
+  split at h'
+  · exact deleteBranch_dest _ _ _ _ h'
+  · exact h'
+
+theorem deleteQueues_resubmit (st : BertE.Admin.Repo) : (BertE.Admin.deleteQueues st).resubmit = [] := by
+  unfold BertE.Admin.deleteQueues
+  split
+  · rfl
+  · dsimp only
+    split
+    · rfl
+    · split <;> rfl
+
+theorem external_dest (w : World) (ok : Bool) (ev : Event)
+    (hev : ∀ d, (Flow.step w.sys ev).1.remote.get (.dest d) = w.sys.remote.get (.dest d)) (d : Dest) :
+    (external w ok ev).1.sys.remote.get (.dest d) = w.sys.remote.get (.dest d) := by
+  unfold external
+  split
+  · exact hev d
+  · rfl
+
+/-- the exceptions the property text makes: the admin force merge, `create_branch` (a new branch starts where the
+    admin says), and a pull request whose build check is bypassed (option, per-author setting, no build key) — for the
+    evaluation the event is, or for one of the evaluations a queue rebuild re-submits -/
+def C03Exempt (w : World) (ev : FullEvent) (orc : List Bool) : Prop :=
+  match ev with
+  | .forceMergeQueues => True
+  | .createBranch _ _ => True
+  | .prEvent id => TargetBypassed w (resolvePr w id)
+  | .commitEvent c => TargetBypassed w (resolveCommit w c)
+  | .rebuildQueues =>
+    ResubBypassed orc (BertE.Admin.rebuildQueues w.cfg.cascade (repoOf w)).resubmit 0
+      (refresh { w with sys := (Flow.step w.sys .dropQueues).1 })
+  | _ => False
+
+/-- the world a queue rebuild / deletion re-submits from satisfies the invariant -/
+theorem dropWorld_inv {w : World} (h : FullInv w) : FullInv (refresh { w with sys := (Flow.step w.sys .dropQueues).1 }) := by
+  apply FullInv.refresh
+  refine ⟨full2_step_sysInv h.sys _ trivial trivial, ?_, h.hostPos, h.cascadeStd⟩
+  intro e he
+  have he' : e ∈ (planDropQueues w.sys).queue := he
+  unfold planDropQueues at he'
+  simp only at he'
+  split at he' <;> cases he'
+
+/-- **C03 over the closed system, EVERY event.** With queues on, for every world that satisfies the invariant, every
+    event — webhook, admin job, third-party action on the repository or the host — and every list of content-merge
+    answers: every destination branch that is on another commit after the event than before is on a commit whose
+    status in the host's build table AT THE TIME OF THE EVENT is SUCCESSFUL, unless the event is exempt
+    (`C03Exempt`: `force_merge_queues`, a `create_branch`, or the build check of the evaluated pull request — for a
+    queue rebuild: of one of the re-submitted pull requests — is bypassed by option, per-author setting or missing
+    build key). No hypothesis on selections, statuses, integration branches: `chained` of `C03_direct_e2e_partial` is
+    derived from the evaluation itself (`full2_prepare_chained`), `hfirst` is not needed (with antisymmetric commit
+    inclusion — part of the invariant — the direct merge lands EXACTLY on the tips the build gate read:
+    `full2_directMerge_exact`). `hT`: the build-gate table is well-formed (`C06_table` for the source's).
+    (`¬ AdminAnomaly` is not needed for one event: D19's exit only deletes.) -/
+theorem C03_full_step (w : World) (h : FullInv w) {msgs : List BertE.Gen.Messages.Msg}
+    (hT : BertE.C06.TblOK w.cfg.eval.build msgs) (huq : w.sys.useQueue = true) (ev : FullEvent) (orc : List Bool)
+    (d : Dest) (new : Commit) (hnew : (step w ev orc).1.sys.remote.get (.dest d) = some new)
+    (hmoved : w.sys.remote.get (.dest d) ≠ some new) :
+    w.host.status new = .successful ∨ C03Exempt w ev orc := by
+  cases ev with
+  | prEvent id => exact prJob_c03 h hT huq id orc d new hnew hmoved
+  | commitEvent c =>
+    unfold step at hnew
+    simp only at hnew
+    split at hnew
+    · rename_i hq
+      left
+      unfold queuesJob at hnew
+      split at hnew
+      · exact absurd hnew hmoved
+      · exact BertE.C03.C03_step_closed w.sys h.inv h.validated w.host.status d new hnew hmoved
+    · rename_i p hp
+      show _ ∨ TargetBypassed w (resolveCommit w c)
+      rw [hp]
+      exact evalOne_c03 h hT huq p orc d new hnew hmoved
+    · exact absurd hnew hmoved
+  | createBranch name from_ => exact Or.inr trivial
+  | forceMergeQueues => exact Or.inr trivial
+  | deleteBranch name => exact absurd (deleteJob_dest w name d new hnew) hmoved
+  | rebuildQueues =>
+    have hnew' : (dropJob w true orc).1.sys.remote.get (.dest d) = some new := hnew
+    unfold dropJob at hnew'
+    simp only [if_true] at hnew'
+    split at hnew'
+    · have hm' : (refresh { w with sys := (Flow.step w.sys .dropQueues).1 }).sys.remote.get (.dest d) ≠ some new := by
+        show (Flow.step w.sys .dropQueues).1.remote.get (.dest d) ≠ some new
+        rw [dropQueues_dest]; exact hmoved
+      exact resubmit_c03 orc _ 0 (dropWorld_inv h) hT (by show (Flow.step w.sys .dropQueues).1.useQueue = true
+                                                          rw [step_useQueue]; exact huq) d new hnew' hm'
+    · exact absurd hnew' hmoved
+  | deleteQueues =>
+    have hnew' : (dropJob w false orc).1.sys.remote.get (.dest d) = some new := hnew
+    unfold dropJob at hnew'
+    simp only [Bool.false_eq_true, if_false] at hnew'
+    split at hnew'
+    · rw [deleteQueues_resubmit] at hnew'
+      have : (Flow.step w.sys .dropQueues).1.remote.get (.dest d) = some new := hnew'
+      rw [dropQueues_dest] at this
+      exact absurd this hmoved
+    · exact absurd hnew' hmoved
+  | push name parents onTop =>
+    have := external_dest w (!ownedName w name && parents.all (· < w.sys.g.size)) (.extSet name parents onTop)
+      (fun d => RefMap.get_set_ne _ _ (by intro he; cases he)) d
+    exact absurd (this ▸ hnew) hmoved
+  | pushTo name c =>
+    have := external_dest w (!ownedName w name && decide (c < w.sys.g.size)) (.extPoint name c)
+      (fun d => RefMap.get_set_ne _ _ (by intro he; cases he)) d
+    exact absurd (this ▸ hnew) hmoved
+  | deleteRef name =>
+    have := external_dest w (!ownedName w name) (.extDelete name)
+      (fun d => RefMap.get_del_ne _ (by intro he; cases he)) d
+    exact absurd (this ▸ hnew) hmoved
+  | wCommit d0 src =>
+    have := external_dest w true (.extW d0 src) (fun d => by
+      simp only [Flow.step]
+      split
+      · exact RefMap.get_set_ne _ _ (by intro he; cases he)
+      · rfl) d
+    exact absurd (this ▸ hnew) hmoved
+  | openPr author src dst facts => exact absurd hnew hmoved
+  | comment id author text => exact absurd hnew hmoved
+  | approve id user => exact absurd hnew hmoved
+  | requestChanges id user => exact absurd hnew hmoved
+  | buildStatus c st => exact absurd hnew hmoved
+  | decline id => exact absurd hnew hmoved
+  | setIssue key issue => exact absurd hnew hmoved
+
+/-! #### along histories: the settings and the queue switch never change -/
+
+theorem resubmit_frame (orc : List Bool) : ∀ (ids : List Nat) (k : Nat) (w : World),
+    (resubmit orc ids k w).1.cfg = w.cfg ∧ (resubmit orc ids k w).1.sys.useQueue = w.sys.useQueue
+  | [], _, _ => ⟨rfl, rfl⟩
+  | id :: ids, k, w => by
+    unfold resubmit
+    simp only
+    obtain ⟨h1, h2⟩ := resubmit_frame orc ids (k + 1) (prJob w id (orc.drop (16 * k))).1
+    obtain ⟨h3, _, h4⟩ := prJob_frame w id (orc.drop (16 * k))
+    exact ⟨h1.trans h3, h2.trans h4⟩
+
+theorem queuesJob_frame (w : World) (force : Bool) :
+    (fun w' : World => w'.cfg = w.cfg ∧ w'.sys.useQueue = w.sys.useQueue) (queuesJob w force).1 := by
+  unfold queuesJob
+  split
+  · exact ⟨rfl, rfl⟩
+  · exact ⟨rfl, step_useQueue _ _⟩
+
+/-- the settings and the queue switch of `w'` are those of `w` -/
+def SameFrame (w w' : World) : Prop := w'.cfg = w.cfg ∧ w'.sys.useQueue = w.sys.useQueue
+
+theorem step_sameFrame (w : World) (ev : FullEvent) (orc : List Bool) : SameFrame w (step w ev orc).1 := by
+  have hext : ∀ ok e, SameFrame w (external w ok e).1 := by
+    intro ok e
+    unfold external
+    split
+    · exact ⟨rfl, step_useQueue _ _⟩
+    · exact ⟨rfl, rfl⟩
+  have hres : ∀ ids s1, s1.useQueue = w.sys.useQueue → SameFrame w (resubmit orc ids 0 (refresh { w with sys := s1 })).1 := by
+    intro ids s1 hs1
+    obtain ⟨h1, h2⟩ := resubmit_frame orc ids 0 (refresh { w with sys := s1 })
+    exact ⟨h1, h2.trans hs1⟩
+  have hdrop : ∀ b, SameFrame w (dropJob w b orc).1 := by
+    intro b
+    unfold dropJob
+    cases b
+    · simp only [Bool.false_eq_true, if_false]
+      split
+      · exact hres _ _ (step_useQueue _ _)
+      · exact ⟨rfl, rfl⟩
+    · simp only [if_true]
+      split
+      · exact hres _ _ (step_useQueue _ _)
+      · exact ⟨rfl, rfl⟩
+  cases ev with
+  | prEvent id => exact ⟨(prJob_frame w id orc).1, (prJob_frame w id orc).2.2⟩
+  | commitEvent c =>
+    unfold step
+    simp only
+    split
+    · exact queuesJob_frame w false
+    · exact ⟨(evalOne_frame w _ orc).1, (evalOne_frame w _ orc).2.2⟩
+    · exact ⟨rfl, rfl⟩
+  | createBranch name from_ =>
+    show SameFrame w (createJob w name from_ orc).1
+    unfold createJob
+    simp only
+    split
+    · split
+      · split
+        · exact hres _ _ (step_useQueue _ _)
+        · rename_i d c _ _ _ _
+          refine ⟨rfl, ?_⟩
+          show (publishOnly w.sys d c).useQueue = _
+          cases d <;> rfl
+      · exact ⟨rfl, rfl⟩
+    · exact ⟨rfl, rfl⟩
+  | deleteBranch name =>
+    show SameFrame w (deleteJob w name).1
+    unfold deleteJob
+    simp only
+    refine ⟨rfl, ?_⟩
+    show (match name, _ with | .dest d, true => (Flow.step w.sys (.deleteBranch d)).1 | _, _ => w.sys).useQueue = _
+    split
+    · exact step_useQueue _ _
+    · rfl
+  | rebuildQueues => exact hdrop true
+  | deleteQueues => exact hdrop false
+  | forceMergeQueues =>
+    unfold step
+    simp only
+    split
+    · exact queuesJob_frame w true
+    · exact ⟨rfl, rfl⟩
+  | push name parents onTop => exact hext _ _
+  | pushTo name c => exact hext _ _
+  | deleteRef name => exact hext _ _
+  | wCommit d src => exact hext _ _
+  | openPr author src dst facts => exact ⟨rfl, rfl⟩
+  | comment id author text => exact ⟨rfl, rfl⟩
+  | approve id user => exact ⟨rfl, rfl⟩
+  | requestChanges id user => exact ⟨rfl, rfl⟩
+  | buildStatus c st => exact ⟨rfl, rfl⟩
+  | decline id => exact ⟨rfl, rfl⟩
+  | setIssue key issue => exact ⟨rfl, rfl⟩
+
+theorem step_frame (w : World) (ev : FullEvent) (orc : List Bool) :
+    (step w ev orc).1.cfg = w.cfg ∧ (step w ev orc).1.sys.useQueue = w.sys.useQueue := step_sameFrame w ev orc
+
+theorem run_frame : ∀ (evs : List (FullEvent × List Bool)) (w : World),
+    (run w evs).cfg = w.cfg ∧ (run w evs).sys.useQueue = w.sys.useQueue
+  | [], _ => ⟨rfl, rfl⟩
+  | e :: es, w => by
+    obtain ⟨h1, h2⟩ := run_frame es (step w e.1 e.2).1
+    obtain ⟨h3, h4⟩ := step_frame w e.1 e.2
+    exact ⟨h1.trans h3, h2.trans h4⟩
+
+/-- **C03 over the closed system, every finite history**: with queues on, after EVERY event of EVERY history without
+    the anomalous exit D19 (whatever the events are, whatever git's content merges answer), every destination branch
+    that moved in that event is on a commit whose status in the host's build table at that time is SUCCESSFUL, unless
+    the event is exempt (`C03Exempt`). `k` = the number of events before, `e` = the next event of the history. -/
+theorem C03_full_run (w : World) (h : FullInv w) {msgs : List BertE.Gen.Messages.Msg}
+    (hT : BertE.C06.TblOK w.cfg.eval.build msgs) (huq : w.sys.useQueue = true)
+    (evs : List (FullEvent × List Bool)) (hna : NoAnomaly w evs) (k : Nat) (e : FullEvent × List Bool)
+    (d : Dest) (new : Commit)
+    (hnew : (step (run w (evs.take k)) e.1 e.2).1.sys.remote.get (.dest d) = some new)
+    (hmoved : (run w (evs.take k)).sys.remote.get (.dest d) ≠ some new) :
+    (run w (evs.take k)).host.status new = .successful ∨ C03Exempt (run w (evs.take k)) e.1 e.2 := by
+  obtain ⟨hc, hu⟩ := run_frame (evs.take k) w
+  exact C03_full_step _ (full_run_inv _ h (noAnomaly_take evs w hna k)) (by rw [hc]; exact hT) (by rw [hu]; exact huq)
+    e.1 e.2 d new hnew hmoved
 
 /-! ### non-vacuity: a concrete history from the empty repository -/
 
@@ -174,9 +726,9 @@ def exBase : Sys :=
 def exWorld : World := ⟨exBase, ⟨[], [], []⟩, [], [], exCfg⟩
 
 theorem exWorld_inv : FullInv exWorld := by
-  refine ⟨?_, ?_, BertE.C20.C20_table.1⟩
-  · apply run_inv _ (BertE.C01.C01_inv_empty false false)
-    refine ⟨?_, ⟨?_, ?_, ?_⟩, ⟨?_, ?_, ?_⟩, trivial⟩
+  refine ⟨?_, ?_, ?_, BertE.C20.C20_table.1⟩
+  · apply BertE.Full2.full2_run_sysInv _ (BertE.Full2.full2_sysInv_init false false)
+    refine ⟨⟨?_, trivial⟩, ⟨⟨?_, ?_, ?_⟩, trivial⟩, ⟨⟨?_, ?_, ?_⟩, trivial⟩, trivial⟩
     · intro p hp; cases hp
     · decide
     · decide
@@ -187,6 +739,7 @@ theorem exWorld_inv : FullInv exWorld := by
   · intro e he
     have : exWorld.sys.queue = [] := by decide
     rw [this] at he; cases he
+  · intro p hp; cases hp
 
 /-- somebody pushes a feature branch, opens a pull request, an approval and a comment arrive, the build of the tip is
     reported; the webhook evaluates: the integration branch is created and the pull request is merged into both
@@ -228,5 +781,60 @@ example : classes exWorld exHistory =
     (run exWorld exHistory).tags = [("4.3", 1)] := by decide +kernel
 
 example := C01_full_step exWorld exWorld_inv (.prEvent 1) [] (fun h => h)
+
+/-! Non-vacuity of `C03_full_step` / `C03_full_run`: the same repository with queues ON and
+    `skip_queue_when_not_needed`. -/
+
+def exBaseQ : Sys :=
+  Flow.run ⟨Graph.empty, [], [], [], [], true, true⟩
+    [.extSet "seed" [] false, .createBranch (.dev 4 (some 3)) 0, .createBranch (.dev 5 (some 1)) 0]
+
+def exWorldQ : World := ⟨exBaseQ, ⟨[], [], []⟩, [], [], exCfg⟩
+
+theorem exWorldQ_inv : FullInv exWorldQ := by
+  refine ⟨?_, ?_, ?_, BertE.C20.C20_table.1⟩
+  · apply BertE.Full2.full2_run_sysInv _ (BertE.Full2.full2_sysInv_init true true)
+    refine ⟨⟨?_, trivial⟩, ⟨⟨?_, ?_, ?_⟩, trivial⟩, ⟨⟨?_, ?_, ?_⟩, trivial⟩, trivial⟩
+    · intro p hp; cases hp
+    · decide
+    · decide
+    · exact BertE.Select.inclOn_const (c0 := 0) (by decide) (by decide)
+    · decide
+    · decide
+    · exact BertE.Select.inclOn_const (c0 := 0) (by decide) (by decide)
+  · intro e he
+    have : exWorldQ.sys.queue = [] := by decide
+    rw [this] at he; cases he
+  · intro p hp; cases hp
+
+/-- a feature branch, a pull request, a first evaluation (integration branch `w/5.1/feature/TEST-1` created, build not
+    started), an approval, the build of commit 1 reported SUCCESSFUL; the next webhook merges DIRECTLY (nothing is
+    queued, every integration branch contains its target: the queue is skipped) -/
+def exHistoryQ : List (FullEvent × List Bool) :=
+  [(.push "feature/TEST-1" [0] false, []),
+   (.openPr "contrib" "feature/TEST-1" "development/4.3" {}, []),
+   (.prEvent 1, []),
+   (.approve 1 "admin", []),
+   (.buildStatus 1 .successful, []),
+   (.prEvent 1, [])]
+
+/-- the history runs as described: the last event is a direct merge with queues on that moves BOTH development
+    branches from commit 0 to commit 1 ... -/
+example : classes exWorldQ exHistoryQ = ["external", "host", "BuildNotStarted", "host", "host", "SuccessMessage"] ∧
+    exWorldQ.sys.useQueue = true ∧
+    (run exWorldQ (exHistoryQ.take 5)).sys.remote.get (.dest (.dev 5 (some 1))) = some 0 ∧
+    (run exWorldQ exHistoryQ).sys.remote.get (.dest (.dev 5 (some 1))) = some 1 ∧
+    (run exWorldQ exHistoryQ).sys.remote.get (.dest (.dev 4 (some 3))) = some 1 := by decide +kernel
+
+/-- ... and `C03_full_run` applied to it (hypotheses discharged: invariant of the initial world, the generated
+    build-gate table, no `delete_branch` in the history): commit 1 is SUCCESSFUL in the host's table at that time, or
+    the evaluation is exempt -/
+example : (run exWorldQ (exHistoryQ.take 5)).host.status 1 = .successful ∨
+    C03Exempt (run exWorldQ (exHistoryQ.take 5)) (.prEvent 1) [] :=
+  C03_full_run exWorldQ exWorldQ_inv BertE.C06.C06_table rfl exHistoryQ
+    ⟨fun h => h, fun h => h, fun h => h, fun h => h, fun h => h, fun h => h, trivial⟩ 5 (.prEvent 1, [])
+    (.dev 5 (some 1)) 1 (by decide +kernel) (by decide +kernel)
+
+example := C03_full_step exWorldQ exWorldQ_inv BertE.C06.C06_table rfl (.prEvent 1) []
 
 end BertE.Full
